@@ -19,7 +19,17 @@ import (
 	"verifharness/hx"
 )
 
+// c09Pre describes how the "old" state came about when it is not a plain completed Write: table A was
+// written completely, the write of Old over it was cut off (epoch, subset), the table was read back
+// (possibly recovered from the backup copy) and written again by the caller - the documented repair.
+type c09Pre struct {
+	A     gptSpec `json:"a"`
+	Epoch int     `json:"epoch"`
+	Sub   int     `json:"sub"`
+}
+
 type c09Case struct {
+	Pre     *c09Pre  `json:"pre,omitempty"`
 	Old     *gptSpec `json:"old,omitempty"` // nil: blank disk
 	New     gptSpec  `json:"new"`
 	SubSeed uint64   `json:"subseed"` // drives the 32 random subsets per in-flight epoch
@@ -91,6 +101,12 @@ func genC09(t *rapid.T) any {
 			o.GUID = genGUID(t, "oldDiskGUID5")
 		}
 		c.Old = &o
+	}
+	if c.Old != nil && rapid.IntRange(0, 3).Draw(t, "preMode") == 0 {
+		a := &gptSpec{LSS: geo.LSS, Sectors: geo.Sectors, Slack: geo.Slack}
+		genGPTParts(t, a)
+		forceGUIDs(t, a)
+		c.Pre = &c09Pre{A: *a, Epoch: rapid.IntRange(0, 5).Draw(t, "preEpoch"), Sub: rapid.IntRange(0, 200).Draw(t, "preSub")}
 	}
 	return c
 }
@@ -188,6 +204,16 @@ func subsetFamily(n int, seed uint64, emit func(sel func(i int) bool, name strin
 	}
 }
 
+// subsetCount is the number of index sets subsetFamily yields for n sectors.
+func subsetCount(n int) int {
+	k := 0
+	subsetFamily(n, 1, func(func(int) bool, string) bool { k++; return true })
+	if k == 0 {
+		return 1
+	}
+	return k
+}
+
 func execC09(ci any) (r hx.Result) {
 	c := ci.(c09Case)
 	nw := c.New
@@ -195,7 +221,93 @@ func execC09(ci any) (r hx.Result) {
 	size := tableSpec{G: &nw}.diskSize()
 	base := dev.New(size)
 	oldSig := ""
-	if c.Old != nil {
+	if c.Old != nil && c.Pre != nil {
+		// old state = A, then an interrupted write of Old, then read + write-back (repair)
+		if err := c.Pre.A.table().Write(base, size); err != nil {
+			r.Discard = true
+			r.Class("pre-rejected")
+			return
+		}
+		d0 := base.Clone()
+		d0.KeepData = true
+		if err := c.Old.table().Write(d0, size); err != nil {
+			r.Discard = true
+			r.Class("old-rejected")
+			return
+		}
+		ws := d0.Writes()
+		ne := 0
+		for _, w := range ws {
+			if w.Epoch+1 > ne {
+				ne = w.Epoch + 1
+			}
+		}
+		e := c.Pre.Epoch % ne
+		img := base.Clone()
+		var inflight []dev.WriteRec
+		for _, w := range ws {
+			if w.Epoch < e {
+				img.Poke(w.Off, w.Data)
+			} else if w.Epoch == e {
+				inflight = append(inflight, w)
+			}
+		}
+		secs := splitSectors(inflight, lss)
+		k, chosen := 0, ""
+		subsetFamily(len(secs), c.SubSeed, func(sel func(int) bool, name string) bool {
+			if k == c.Pre.Sub%subsetCount(len(secs)) {
+				for i, sw := range secs {
+					if sel(i) {
+						img.Poke(sw.off, sw.data)
+					}
+				}
+				chosen = name
+				return false
+			}
+			k++
+			return true
+		})
+		var pt partition.Table
+		var err error
+		if p, pv, st := hx.Safe(func() { pt, err = partition.Read(img, lss, lss) }); p {
+			r.Fail("crash-read-panic", "preparation (crash in epoch %d subset %s): partition.Read panicked: %v [%s]", e, chosen, pv, st)
+			return
+		}
+		gt, _ := pt.(*gpt.Table)
+		if err != nil || gt == nil {
+			r.Fail("crash-unreadable", "preparation: partition table unreadable as GPT after a crash in sync epoch %d/%d (subset %s) of writing the old table over an earlier one (err=%v)", e, ne, chosen, err)
+			return
+		}
+		oldSig = tableSig(gt)
+		if oldSig != specSig(c.Old) && oldSig != specSig(&c.Pre.A) {
+			r.Fail("crash-mixture", "preparation: after a crash in sync epoch %d/%d (subset %s) partition.Read returns neither table:\n%s", e, ne, chosen, oldSig)
+			return
+		}
+		recovered := gt.RecoveredFromBackup
+		if p, pv, st := hx.Safe(func() { err = gt.Write(img, size) }); p {
+			r.Fail("write-panic", "writing back the table read after a crash panicked: %v [%s]", pv, st)
+			return
+		}
+		if err != nil {
+			r.Discard = true
+			r.Class("repair-rejected")
+			r.Note("writing back the table read after a crash was refused: %v", err)
+			return
+		}
+		var gt2 *gpt.Table
+		if p, _, _ := hx.Safe(func() { pt, err = partition.Read(img, lss, lss) }); !p && err == nil {
+			gt2, _ = pt.(*gpt.Table)
+		}
+		if gt2 == nil || tableSig(gt2) != oldSig || gt2.RecoveredFromBackup {
+			r.Fail("repair", "a table read after a crash (recovered from backup: %v) and written back does not read back as itself from the primary copy (err=%v)", recovered, err)
+			return
+		}
+		base = img.Clone()
+		r.Class("old:repaired")
+		if recovered {
+			r.Class("old:repaired-from-backup")
+		}
+	} else if c.Old != nil {
 		if err := c.Old.table().Write(base, size); err != nil {
 			r.Discard = true
 			r.Class("old-rejected")
